@@ -108,6 +108,12 @@ prop("C16", engine="tpsim", level="exploration", technique="deterministic simula
      text="Every handler call names a known channel built from the authenticated peers; block callbacks name the channel whose DAG holds the block and fire on the right side only; nothing is reported for foreign requests or after a cleanup; queued/sent callbacks never exceed the blocks actually put on the wire; pause/unpause reach the channel's current request id; OnChannelCompleted fires at most once per completed response/request with an error iff it did not complete in full, never for cancellations; the per-channel store is registered exactly from UseStore to cleanup. Also serves C10: exact do-not-send-first-blocks count, previous request cancelled before the next, queued resume message delivered at most once.",
      note="")
 
+prop("C04", engine="netsim", level="exploration", technique="deterministic two-node simulation with scripted validator outcomes, unregistered voucher types, hand-built requests, restarts after cuts and process crashes; log-relation oracle between validator calls, replies, channel creation and transport calls",
+     rule=NETRULE + "the validator script of each transfer is drawn from {accept, reject (with/without voucher result), error} x ForcePause x DataLimit x RequiresFinalization, the voucher type may be unregistered on the responder, new requests without voucher / without selector are hand-built and sent through the initiator's real network layer, restart validation may reject or fail, and the responder's application rejects some revalidations; non-trivial = a not-accepted request or an accepted reply was checked",
+     probes=["accepted-reply-checked", "not-accepted-request:validator rejected", "not-accepted-request:validator returned an error", "not-accepted-request:voucher type not registered", "not-accepted-request:request without voucher", "not-accepted-request:request without selector"], real=REAL_NET, stubs=STUB_NET, assumptions=ASSUME,
+     text="An Accepted new/restart reply exists only after an accepting call of the validator registered for exactly that voucher type; it carries the validator's voucher result and pause decision; the stored channel shows limit and finalisation flag by the time data moves; a request no validator accepted creates no channel, opens no graphsync request and is answered not-accepted (with the rejection's voucher result); no library panic anywhere (generic oracle; D4/D9 were found this way).",
+     note="rejected revalidation / restart => Failed + transport closed is covered by the C08/C10 strata and the close oracle of C09")
+
 ORDER = ["C%02d" % i for i in range(1, 21)]
 PENDING = {pid: "check under construction in this session (engine not yet registered); not claimed until its quick command runs clean" for pid in ORDER if pid not in P}
 
